@@ -9,7 +9,7 @@ Deviations from DESIGN.md section 3 / C12 (everything else as designed):
   inode of the SCM directory, which a rename into the attic preserves); the fresh directory that replaces an
   instance moved to the attic is untouched again and must converge.
 """
-import os, json, shutil, hashlib, stat
+import os, json, shutil, hashlib, stat, time
 from hypothesis import strategies as st
 
 import vlib
@@ -44,14 +44,18 @@ ASSUMPTIONS = ["user actions happen only inside directories owned by a git SCM; 
                "Bob runs inside the harness process; every suspected violation is re-run with the real `bob` script in "
                "fresh processes before it is reported"]
 TIME_BUDGET = {"quick": 240, "thorough": 1500}
-BATCH = 4
+BATCH = 2
 
 WS = "dev/src/root/1/workspace"
 SRCBASE = "dev/src/root/1"
 DIRS = [".", "a", "b", "n", "a/n"]
 USER_KINDS = ["modify", "untracked", "commit", "newbranch", "switch", "detach"]
-BOB_VARIANTS = {"dev": ["dev", "root"], "dev-cc": ["dev", "root", "--clean-checkout"],
-                "dev-noattic": ["dev", "root", "--no-attic"], "clean": ["clean"],
+# -B (checkout only) and --no-audit keep the number of processes per invocation down (process creation dominates the
+# cost of this check); neither option takes part in the checkout/attic/clean logic.  "dev-full" is the plain command.
+LEAN = ["-B", "--no-audit"]
+BOB_VARIANTS = {"dev": ["dev", "root"] + LEAN, "dev-full": ["dev", "root"],
+                "dev-cc": ["dev", "root", "--clean-checkout"] + LEAN,
+                "dev-noattic": ["dev", "root", "--no-attic"] + LEAN, "clean": ["clean"],
                 "clean-s": ["clean", "-s"], "clean-attic": ["clean", "--attic"]}
 
 
@@ -129,7 +133,9 @@ class Sim:
                 continue
             seen.add(e["dir"]); out.append(e)
         out.sort(key=lambda e: depth(e["dir"]))       # stable: parents before nested, order otherwise kept
-        self.spec = out
+        # Bob rejects (parse error) a git SCM nested into the directory of an SCM without Jenkins plugin (url, import)
+        self.spec = [e for e in out if not (e["t"] == "git" and any(
+            o["t"] != "git" and o["dir"] != e["dir"] and under(e["dir"], o["dir"]) for o in out))]
 
     def edit(self, op):
         k = op[0]
@@ -157,6 +163,27 @@ class Sim:
                 self.spec[i], self.spec[j] = self.spec[j], self.spec[i]
             elif k == "e_refresh":
                 self.resolve(e)
+            elif k == "e_bump":
+                # upstream publishes something new and the recipe follows it
+                u = self.u
+                if e["t"] == "url":
+                    u.set_file(e["src"]); self.resolve(e)
+                elif e["t"] == "imp":
+                    u.import_event(e["src"], 0, op[2])
+                else:
+                    r = u.repo(e["src"])
+                    kind, bi = e["ref"][0] % 5, e["ref"][1]
+                    b = u.ev_commit(e["src"], bi, op[2], op[2])
+                    hist = r.branches[b]
+                    if kind == 1:
+                        u.ev_tag(e["src"], bi, len(hist) - 1, op[2] & 1)
+                        e["ref"][2] = len(r.tagorder) - 1
+                    elif kind == 4:
+                        u.ev_tag(e["src"], bi, len(hist) - 1, op[2] & 1)
+                        e["ref"][2] = len([t for t in r.tagorder if r.tags[t][0] in hist]) - 1
+                    else:
+                        e["ref"][2] = len(hist) - 1
+                    self.resolve(e)
         self._legalize()
 
     def upstream(self, op):
@@ -189,7 +216,8 @@ class Sim:
 class Run:
     def __init__(self, ctx, case, base, confirm):
         self.ctx, self.case, self.base = ctx, case, base
-        self.bob = bobproc.script if confirm else bobproc.direct
+        self._bob = bobproc.script if confirm else bobproc.direct
+        self.sec = {"bob": 0.0, "user": 0.0, "B": 0.0, "A": 0.0}
         self.W = os.path.join(base, "w")
         self.X = os.path.join(base, "other", "place", "x")
         self.home = os.path.join(self.W, ".home")
@@ -206,6 +234,13 @@ class Run:
         self.log = []                # human readable trace for violation details
         self.rtime = 0
         self.invocations = 0
+
+    def bob(self, project, argv):
+        t = time.time()
+        try:
+            return self._bob(project, argv, env_extra=GIT_QUIET_ENV)
+        finally:
+            self.sec["bob"] += time.time() - t
 
     # ---- project files
     def render(self, root):
@@ -262,7 +297,7 @@ class Run:
         inode = self.ino(wd)
         self.nmark += 1
         n = self.nmark
-        t = self.sim.u.tick()
+        t = srcuni.T0 + 9000000 + n * 10      # own clock: user actions must not shift upstream commit ids
         g = lambda *a: srcuni.git(wd, a, self.home, t)
 
         def plant_file(name, what):
@@ -388,7 +423,7 @@ class Run:
         r = self.bob(self.W, argv)
         self.invocations += 1
         where = "after invocation %d `bob %s` (exit %d)" % (self.invocations, " ".join(argv), r.rc)
-        self.log.append("bob %s -> %d" % (" ".join(argv[0:1] + argv[2:] if argv[0] == "dev" else argv), r.rc))
+        self.log.append("bob %s -> %d" % (" ".join(argv), r.rc))
         self.labels.add("bob:%s:%s" % (variant, "ok" if r.rc == 0 else "fail"))
         if r.rc not in (0, 1):
             self.fail("internal-error", "%s: exit status %d is neither success nor a build error" % (where, r.rc), r)
@@ -420,28 +455,38 @@ class Run:
                 self.labels.add("clean-s-kept-unused-src")
             for d in gone:
                 self.applied.pop(d, None)
-        self.check_B(where, r)
+        t = time.time()
+        try:
+            self.check_B(where, r)
+        finally:
+            self.sec["B"] += time.time() - t
         return r
 
     # ---- oracle A
     def check_A(self, rW):
         sim = self.sim
+        if not sim.spec:
+            # no checkoutSCM -> no checkout step: the old directory is unreferenced garbage (bob clean -s), not a
+            # source workspace of the final specification
+            self.labels.add("A:final-spec-has-no-scm")
+            return
         self.render(self.X)
         if os.path.isdir(os.path.join(self.W, "imports")):
             shutil.copytree(os.path.join(self.W, "imports"), os.path.join(self.X, "imports"), symlinks=True)
-        rX = self.bob(self.X, ["dev", "root", "-B"])
+        rX = self.bob(self.X, ["dev", "root"] + LEAN)
         if rX.rc not in (0, 1):
             self.fail("internal-error", "fresh checkout: exit status %d" % rX.rc, rX)
         if rX.rc != 0:
             self.labels.add("A:fresh-checkout-fails")
             return
         present = self.scm_dirs_present()
-        exempt = sorted(d for d, i in present.items() if i in self.touched)
+        touched = sorted(d for d, i in present.items() if i in self.touched)
+        exempt = list(touched)
         for e in sim.spec:
             if e["t"] == "imp" and (e["opt"] & 1) and (e["src"] % sim.u.NIMPORTS) in sim.u.import_deleted:
                 exempt.append(e["dir"]); self.labels.add("A:exempt-import-noprune-after-delete")
         if rW.rc != 0:
-            if exempt:
+            if touched:
                 self.labels.add("A:skipped-failure-with-touched-instance")
                 return
             self.fail("incremental-fails", "a fresh checkout of the final checkoutSCM succeeds, the user touched nothing that "
@@ -455,10 +500,28 @@ class Run:
         flt = lambda c: [x for x in c if not any(under(os.fsdecode(x[0]), d) for d in exempt)]
         cW, cX = flt(cW), flt(cX)
         self.labels.add("A:compared" + (":partly-exempt" if exempt else ""))
-        if cW != cX:
-            self.fail("untouched-differs", "source workspace differs from a fresh checkout of the same checkoutSCM outside the "
-                      "directories the user touched (%r); (path, incremental, fresh): %r" %
-                      (exempt, treecanon.diff(cW, cX, 6)), rW)
+        if cW == cX:
+            return
+        # root-cause bucket: which kind of SCM owns the differing paths
+        dW, dX = {x[0]: x for x in cW}, {x[0]: x for x in cX}
+        diffs = sorted(os.fsdecode(k) for k in set(dW) | set(dX) if dW.get(k) != dX.get(k))
+        owners = sorted(sim.spec, key=lambda e: -depth(e["dir"]))
+        def owner(path):
+            for e in owners:
+                if under(path, e["dir"]):
+                    return e
+            return None
+        def empty_extra_dir(path):
+            k = os.fsencode(path)
+            return k in dW and k not in dX and dW[k][1] == "d" and not any(os.fsdecode(o).startswith(path + "/") for o in dW)
+        if all(empty_extra_dir(p) for p in diffs):
+            bucket = "empty-dir-left"
+        else:
+            kinds = sorted(set((owner(p) or {"t": "no-scm"})["t"] for p in diffs if not empty_extra_dir(p)))
+            bucket = "+".join(kinds)
+        self.fail("untouched-differs:" + bucket, "source workspace differs from a fresh checkout of the same checkoutSCM outside the "
+                  "directories the user touched (exempt: %r); (path, incremental, fresh): %r" %
+                  (exempt, treecanon.diff(cW, cX, 6)), rW)
 
     # ---- whole case
     def run(self):
@@ -466,7 +529,9 @@ class Run:
         for op in self.case["history"]:
             k = op[0]
             if k == "user":
+                t = time.time()
                 self.user(op)
+                self.sec["user"] += time.time() - t
             elif k == "bob":
                 r = self.invoke(op[1] if op[1] in BOB_VARIANTS else "dev")
             elif k.startswith("u_"):
@@ -475,11 +540,19 @@ class Run:
                 self.sim.edit(op); self.log.append("edit %s" % (op,))
                 self.labels.add("edit:" + k)
         rW = self.invoke("dev", final=True)
-        self.check_A(rW)
+        t = time.time()
+        try:
+            self.check_A(rW)
+        finally:
+            self.sec["A"] += time.time() - t - 0   # includes the fresh checkout (also counted in bob)
 
 
 class Excluded(Exception):
     pass
+
+
+GIT_QUIET_ENV = {"GIT_CONFIG_COUNT": "2", "GIT_CONFIG_KEY_0": "gc.auto", "GIT_CONFIG_VALUE_0": "0",
+                 "GIT_CONFIG_KEY_1": "maintenance.auto", "GIT_CONFIG_VALUE_1": "false"}
 
 
 def run_case(ctx, case, confirm=False):
@@ -495,6 +568,9 @@ def run_case(ctx, case, confirm=False):
                    sorted(run.labels) + ["scms:%d" % len(case["spec"]), "markers:%d" % min(len(run.markers), 4)],
                    {"spec": [e["res"] for e in run.sim.spec], "trace": run.log[:14]})
     finally:
+        for k, v in run.sec.items():
+            ctx.extra["sec_" + k] = round(ctx.extra.get("sec_" + k, 0) + v, 2)
+        ctx.extra["bob_invocations"] = ctx.extra.get("bob_invocations", 0) + run.invocations
         vlib.rmtree(base)
 
 
@@ -509,7 +585,7 @@ up_st = st.one_of(
     st.tuples(st.just("u_branch"), I6, st.integers(0, 3), I6),
     st.tuples(st.just("u_tag"), I6, st.integers(0, 3), I6, st.integers(0, 1)),
     st.tuples(st.just("u_repo"), st.one_of(st.none(), st.integers(0, 2), st.integers(0, 2))),
-    st.tuples(st.just("u_file"), st.integers(0, 2), st.just(0)),
+    st.tuples(st.just("u_file"), st.integers(0, 2), st.integers(0, 1)),
     st.tuples(st.just("u_imp"), st.integers(0, 1), st.integers(0, 3), I6),
 ).map(list)
 edit_st = st.one_of(
@@ -517,24 +593,31 @@ edit_st = st.one_of(
     st.tuples(st.just("e_ref"), I6, ref_st), st.tuples(st.just("e_dir"), I6, st.integers(0, 4)),
     st.tuples(st.just("e_add"), I6, entry_st), st.tuples(st.just("e_del"), I6), st.tuples(st.just("e_swap"), I6),
     st.tuples(st.just("e_refresh"), I6), st.tuples(st.just("e_src"), I6, I6),
+    st.tuples(st.just("e_bump"), I6, I6), st.tuples(st.just("e_bump"), I6, I6),
 ).map(list)
 user_st = st.tuples(st.just("user"), st.sampled_from(USER_KINDS), st.integers(0, 2), I6).map(list)
-bob_st = st.sampled_from(["dev"] * 6 + ["dev-cc"] * 3 + ["dev-noattic", "clean", "clean-attic", "clean-attic", "clean-s"]) \
-    .map(lambda v: [["bob", v]])
-clear_clean = st.just([["e_clear"], ["bob", "clean-s"]])
+BOB_WEIGHTED = ["dev"] * 7 + ["dev-full"] * 2 + ["dev-cc"] * 4 + ["dev-noattic"] * 2 + ["clean"] + ["clean-attic"] * 3 + ["clean-s"] + ["clear+clean-s"] * 2
 
 @st.composite
 def round_st(draw):
-    ops = draw(st.lists(user_st, min_size=0, max_size=2))
-    ops += draw(st.lists(st.one_of(edit_st, edit_st, up_st), min_size=0, max_size=2))
-    ops += draw(st.one_of(bob_st, bob_st, bob_st, bob_st, bob_st, bob_st, bob_st, bob_st, bob_st, clear_clean))
+    # (one_of() merges identical alternatives, so weights are expressed through sampled_from)
+    nuser = draw(st.sampled_from([0, 1, 1, 1, 2, 2, 3]))
+    ops = [draw(user_st) for _ in range(nuser)]
+    nchg = draw(st.sampled_from([0, 1, 1, 1, 2, 2]))
+    for _ in range(nchg):
+        ops.append(draw(edit_st) if draw(st.integers(0, 9)) < 6 else draw(up_st))
+    v = draw(st.sampled_from(BOB_WEIGHTED))
+    if v == "clear+clean-s":
+        ops += [["e_clear"], ["bob", "clean-s"]]
+    else:
+        ops.append(["bob", v])
     return ops
 
 def case_st(quick):
     return st.fixed_dictionaries({
         "pre": st.lists(up_st, max_size=3),
-        "spec": st.lists(entry_st, min_size=1, max_size=3),
-        "history": st.lists(round_st(), min_size=1, max_size=3 if quick else 6).map(lambda rs: [o for r in rs for o in r]),
+        "spec": st.sampled_from([1, 1, 1, 2, 2, 3]).flatmap(lambda n: st.lists(entry_st, min_size=n, max_size=n)),
+        "history": st.lists(round_st(), min_size=2, max_size=3 if quick else 6).map(lambda rs: [o for r in rs for o in r]),
     })
 
 
@@ -560,32 +643,110 @@ def replay(ctx, case):
 
 
 # ------------------------------------------------------------------------------------------- known findings
-def _f_url_digest(sig, case, detail):
-    """structural: between two Bob invocations a url SCM kept its dir and URL but its digest attributes changed"""
-    if sig != "incremental-fails" or "digest did not match" not in detail:
-        return False
+def _dev_points(case):
+    """replay the symbolic history on the pure model: [(sim state snapshot at each `bob dev`, ops since the previous
+    one)], the implicit first and final invocations included.  snapshot = {dir: (entry copy, info)}"""
     sim = Sim(case, None, None)
     def snap():
-        return {e["dir"]: e["res"] for e in sim.spec if e["t"] == "url"}
-    last = snap()
-    dig = lambda r: (r.get("digestSHA1"), r.get("digestSHA256"))
+        out = {}
+        for e in sim.spec:
+            info = {}
+            if e["t"] == "git" and "branch" in e["res"]:
+                r = sim.u.repo(e["src"])
+                hist = r.branches[e["res"]["branch"]]
+                if "commit" in e["res"]: local = e["res"]["commit"]
+                elif "tag" in e["res"]: local = r.tags[e["res"]["tag"]][0]
+                else: local = hist[-1]
+                info = {"local": local, "ancestry": list(hist[:hist.index(local) + 1]) if local in hist else [local],
+                        "tip": hist[-1]}
+            out[e["dir"]] = (json.loads(json.dumps(e)), info)
+        return out
+    points = [(snap(), [])]
+    since = []
     for op in list(case["history"]) + [["bob", "dev"]]:
         k = op[0]
         if k == "bob":
-            if BOB_VARIANTS.get(op[1], ["dev"])[0] != "dev":
-                continue
-            now = snap()
-            for d, r in now.items():
-                o = last.get(d)
-                if o is not None and o["url"] == r["url"] and dig(o) != dig(r) and dig(r) != (None, None) and dig(o) != (None, None):
-                    return True
-            last = now
+            if BOB_VARIANTS.get(op[1], ["dev"])[0] == "dev":
+                points.append((snap(), since)); since = []
         elif k == "user":
             pass
         elif k.startswith("u_"):
-            sim.upstream(op)
+            sim.upstream(op); since.append(op)
         else:
-            sim.edit(op)
+            sim.edit(op); since.append(op)
+    return points
+
+
+def _f_url_digest(sig, case, detail):
+    """structural: between two `bob dev` invocations a url SCM kept its dir and URL but got new digest attributes
+    (changed, or added to a so far digest-less SCM): the file in the workspace is neither downloaded again nor moved away"""
+    if sig != "incremental-fails" or "digest did not match" not in detail:
+        return False
+    dig = lambda r: (r.get("digestSHA1"), r.get("digestSHA256"))
+    pts = _dev_points(case)
+    for (a, _), (b, _) in zip(pts, pts[1:]):
+        for d, (e, _) in b.items():
+            o = a.get(d)
+            if e["t"] == "url" and o is not None and o[0]["t"] == "url" and o[0]["res"]["url"] == e["res"]["url"] \
+                    and dig(o[0]["res"]) != dig(e["res"]) and dig(e["res"]) != (None, None):
+                return True
     return False
 
-FINDINGS = {"C12-url-digest-change-never-converges": _f_url_digest}
+
+def _f_git_behind(sig, case, detail):
+    """structural: the final spec tracks branch b (no tag/commit) in a directory that an earlier `bob dev` left on a
+    commit of a local branch b of which the new upstream tip is a proper ancestor (url changed to a fork/mirror that
+    lags behind): `merge --ff-only` says "Already up to date" and the workspace keeps the newer commits"""
+    if not sig.startswith("untouched-differs") or "git" not in sig:
+        return False
+    pts = _dev_points(case)
+    final = pts[-1][0]
+    for d, (e, info) in final.items():
+        if e["t"] != "git" or "commit" in e["res"] or "tag" in e["res"]:
+            continue
+        for snap, _ in pts[:-1]:
+            o = snap.get(d)
+            if o and o[0]["t"] == "git" and o[0]["res"].get("branch") == e["res"]["branch"] and o[1] \
+                    and info["tip"] in o[1]["ancestry"] and info["tip"] != o[1]["local"]:
+                return True
+    return False
+
+
+def _f_empty_parent(sig, case, detail):
+    """structural: an SCM lived in a two-level directory P/x whose parent P was not an SCM directory, and the final
+    spec has nothing below P: the move to the attic leaves the empty directory P behind"""
+    if sig != "untouched-differs:empty-dir-left":
+        return False
+    pts = _dev_points(case)
+    final = pts[-1][0]
+    for snap, _ in pts[:-1]:
+        for d in snap:
+            if depth(d) == 2:
+                parent = d.split("/")[0]
+                if parent not in snap and not any(under(f, parent) for f in final):
+                    return True
+    return False
+
+
+def _f_tar_shrunk(sig, case, detail):
+    """structural: a digest-less url SCM extracts a tarball that upstream replaced by one with fewer members while
+    dir and URL stayed: the new tarball is extracted over the old tree"""
+    if not sig.startswith("untouched-differs") or "url" not in sig:
+        return False
+    pts = _dev_points(case)
+    final = pts[-1][0]
+    nod = lambda r: "digestSHA1" not in r and "digestSHA256" not in r
+    for i in range(len(pts) - 1):
+        for d, (e, _) in pts[i][0].items():
+            if e["t"] == "url" and e["res"]["url"].endswith(".tgz") and nod(e["res"]):
+                f = final.get(d)
+                if f and f[0]["t"] == "url" and f[0]["res"]["url"] == e["res"]["url"] and nod(f[0]["res"]) and \
+                        any(op[0] == "u_file" and op[1] % 3 == 2 and len(op) > 2 and op[2] for _, ops in pts[i + 1:] for op in ops):
+                    return True
+    return False
+
+
+FINDINGS = {"C12-url-digest-change-never-converges": _f_url_digest,
+            "C12-git-url-switch-to-lagging-repo-keeps-newer-commits": _f_git_behind,
+            "C12-attic-leaves-empty-parent-directory": _f_empty_parent,
+            "C12-url-tarball-with-fewer-members-leaves-old-files": _f_tar_shrunk}
